@@ -219,10 +219,11 @@ func cmdSkipSweep(args []string) {
 			nums = append(nums, n)
 		}
 	}
+	tpad := 0 // set by the caller for records whose tag varint is padded
 	emit := func(num, wt, n, vlen int, d uint64, rec []byte) {
 		trailer := []byte{0x08, 0x96, 0x01, 0xff}[:r.Intn(5)]
 		buf := append(append([]byte(nil), rec...), trailer...)
-		ev := map[string]any{"ev": "skiprec", "num": num, "wt": wt, "n": n, "nd": proj.Digits64(uint64(n)), "vlen": vlen, "d": proj.Digits64(d),
+		ev := map[string]any{"ev": "skiprec", "num": num, "wt": wt, "n": n, "nd": proj.Digits64(uint64(n)), "vlen": vlen, "d": proj.Digits64(d), "tpad": tpad,
 			"reclen": len(rec), "got": 0, "err": false, "panic": "", "unk_ok": true, "note": ""}
 		var got int
 		var err error
@@ -290,6 +291,25 @@ func cmdSkipSweep(args []string) {
 			}
 		}
 	}
+	// non-minimal TAG varints (valid wire data): 1..3 extra continuation groups, every wire type
+	padTag := func(num int, wt protowire.Type, extra int) []byte {
+		t := protowire.AppendTag(nil, protowire.Number(num), wt)
+		for i := 0; i < extra; i++ {
+			t[len(t)-1] |= 0x80
+			t = append(t, 0)
+		}
+		return t
+	}
+	for _, num := range nums {
+		for extra := 1; extra <= 3; extra++ {
+			tpad = extra
+			emit(num, 0, 0, 2, 300, protowire.AppendVarint(padTag(num, protowire.VarintType, extra), 300))
+			emit(num, 2, 5, 0, 0, protowire.AppendBytes(padTag(num, protowire.BytesType, extra), []byte{1, 2, 3, 4, 0x85}))
+			emit(num, 1, 0, 0, 0, append(padTag(num, protowire.Fixed64Type, extra), 1, 2, 3, 4, 5, 6, 7, 0x80))
+			emit(num, 5, 0, 0, 0, append(padTag(num, protowire.Fixed32Type, extra), 0xff, 0xff, 0xff, 0xff))
+		}
+	}
+	tpad = 0
 	for _, num := range nums {
 		emit(num, 1, 0, 0, 0, append(protowire.AppendTag(nil, protowire.Number(num), protowire.Fixed64Type), 1, 2, 3, 4, 5, 6, 7, 0x80))
 		emit(num, 5, 0, 0, 0, append(protowire.AppendTag(nil, protowire.Number(num), protowire.Fixed32Type), 0xff, 0xff, 0xff, 0xff))
